@@ -721,3 +721,7 @@ _thor("C10", [f"smpl_extract.structural:Traversable.get_info[children={n}]" for 
 # C13 (F16): a reversed view always has a known, non-negative length
 SPECS["C13"]["contracts"] += ["smpl_extract.util.stream:StreamReversed.__init__"]
 SPECS["C13"]["level_text"] += "; StreamReversed.__init__ gives a reversed view a non-negative length whatever size it is handed (F16: a negative size made every read succeed forever)"
+
+# C10: the AKAI path-token normaliser
+SPECS["C10"]["contracts"] += ["smpl_extract.akai.image:AkaiImageParser._sanitize_string"]
+SPECS["C10"]["level_text"] += "; AkaiImageParser._sanitize_string drops exactly one trailing colon of the upper-cased, trimmed token and raises nothing on the empty token"
